@@ -16,8 +16,8 @@ package main
 //   - after the faults stop, all replicas converge on one log containing a fresh marker.
 
 import (
-	"sync"
 	"context"
+	"sync"
 	"fmt"
 	"os"
 	"strconv"
@@ -26,6 +26,7 @@ import (
 
 	"github.com/coreos/etcd/raft/raftpb"
 	pb "github.com/marekgalovic/anndb/protobuf"
+	"github.com/marekgalovic/anndb/storage/wal"
 	uuid "github.com/satori/go.uuid"
 )
 
@@ -91,6 +92,42 @@ func childRaft(args []string) {
 	out.Done()
 	os.Exit(0)
 }
+
+
+// walView lists what a log store answers: first index, last index, and the term of every index in
+// between (plus the hard state). A replica that restarts opens a fresh store over the same database;
+// that store must answer exactly what the stopped one did, or the replica resumes from a log it
+// never made durable (a resurrected tail forks history).
+func walView(w wal.WAL) string {
+	fi, e1 := w.FirstIndex()
+	li, e2 := w.LastIndex()
+	hs, _, e3 := w.InitialState()
+	if e1 != nil || e2 != nil || e3 != nil {
+		return fmt.Sprintf("error first=%v last=%v hs=%v", e1, e2, e3)
+	}
+	var sb strings.Builder
+	fmt.Fprintf(&sb, "first=%d last=%d term=%d vote=%d commit=%d terms:", fi, li, hs.Term, hs.Vote, hs.Commit)
+	for i := fi - 1; i <= li && li-i < 100000; i++ {
+		t, err := w.Term(i)
+		if err != nil {
+			fmt.Fprintf(&sb, " %d:err(%v)", i, err)
+		} else {
+			fmt.Fprintf(&sb, " %d:%d", i, t)
+		}
+	}
+	return sb.String()
+}
+
+// reopenMustAgree compares the stopped incarnation's store with a fresh instance over the same database
+func reopenMustAgree(out *childOut, prop string, id uint64, old *rsNode, gid uuid.UUID) {
+	old.ctl.waitQuiet()
+	warm := walView(old.w.inner)
+	cold := walView(wal.NewBadgerWAL(old.db, gid))
+	if warm != cold {
+		out.Violate(prop, prop+"/restart-log-differs", fmt.Sprintf("node %d: the log store a restart opens over the replica's database does not answer what the stopped replica's store answered (the replica resumes from a log it never had: forked history / lost entries). stopped: %s | reopened: %s", id, clip(warm, 600), clip(cold, 600)))
+	}
+}
+
 
 func raftTrial(out *childOut, r *Rng, t int, thorough bool) {
 	N := 1 + r.Intn(5)
@@ -179,6 +216,7 @@ func raftTrial(out *childOut, r *Rng, t int, thorough bool) {
 		hs, _ := old.w.HardState()
 		ct, cterr := old.w.Term(hs.Commit)
 		old.stopIncarnation()
+		reopenMustAgree(out, raftAs, id, old, c.gid)
 		n, err := c.start(id, peers, old.addr)
 		if err != nil {
 			out.Violate("C05", "C05/restart-fails", fmt.Sprintf("restart of node %d failed: %v", id, err))
@@ -565,7 +603,16 @@ func raftCorpusDeposedLeaderLearnsByAppend(out *childOut) {
 	li, _ := n.w.LastIndex()
 	prev := li - 1
 	pt, _ := n.w.Term(prev)
-	out.Local("node 1 leads term %d with last index %d; node 2, leader of term %d, appends at index %d", T, li, T+1, prev+1)
+	// the leader of term T takes a few proposals it will never commit: an uncommitted tail that the
+	// successor's append cuts off
+	for i := 0; i < 5; i++ {
+		ctx, cancel := context.WithTimeout(context.Background(), 50*time.Millisecond)
+		n.g.Propose(ctx, []byte(fmt.Sprintf("tail-%d", i)))
+		cancel()
+	}
+	waitFor(2*time.Second, func() bool { l2, _ := n.w.LastIndex(); return l2 >= li+5 })
+	tailLast, _ := n.w.LastIndex()
+	out.Local("node 1 leads term %d with last index %d (uncommitted tail up to %d); node 2, leader of term %d, appends at index %d", T, li, tailLast, T+1, prev+1)
 	send(raftpb.Message{Type: raftpb.MsgApp, From: 2, To: 1, Term: T + 1, Index: prev, LogTerm: pt, Commit: prev,
 		Entries: []raftpb.Entry{{Term: T + 1, Index: prev + 1, Type: raftpb.EntryNormal}}})
 	got := waitFor(3*time.Second, func() bool { mu.Lock(); defer mu.Unlock(); return len(acks) > 0 })
@@ -575,6 +622,16 @@ func raftCorpusDeposedLeaderLearnsByAppend(out *childOut) {
 	mu.Unlock()
 	if got {
 		out.Nontrivial("deposed-leader-learns-by-append")
+		// the deposed leader's log now ends at the successor's entry; it crashes and restarts before its log
+		// grows again: the restarted replica must resume from that log, not from the tail it was told to drop
+		if l3, _ := n.w.LastIndex(); l3 == prev+1 {
+			n.ctl.kill()
+			n.stopIncarnation()
+			reopenMustAgree(out, raftAs, 1, n, c.gid)
+			out.Local("deposed leader (log cut back from %d to %d) stopped; a fresh store over its database compared with the stopped one", tailLast, l3)
+		} else {
+			out.Local("the deposed leader's log ends at %d, not at %d: the restart comparison is skipped", l3, prev+1)
+		}
 	}
 	c.teardown()
 }
